@@ -158,6 +158,40 @@ print('OK' if np.array_equal(a,b) else 'WRONG')
     return r.returncode != 0 or 'OK' not in r.stdout
 
 
+def S_C09c():
+    """Own-file save with a dtype change, or re-save of a scaled file: image unusable/wrong afterwards."""
+    import tempfile, shutil
+    import nibabel as nib
+    d = tempfile.mkdtemp()
+    try:
+        bad = False
+        a = np.arange(24, dtype='f8').reshape(2, 3, 4)
+        for klass, ext in ((nib.Nifti1Image, '.nii'), (nib.AnalyzeImage, '.img'), (nib.MGHImage, '.mgh')):
+            for d0, d1 in (('f4', 'i2'), ('i2', 'f4'), ('f4', 'u1')):
+                p = os.path.join(d, 'a_%s_%s%s' % (d0, d1, ext))
+                src = a.astype(d0)
+                try:
+                    img = klass(src, np.eye(4))
+                    img.set_data_dtype(d0)
+                    nib.save(img, p)
+                    h = nib.load(p)
+                    h.set_data_dtype(d1)
+                except Exception:
+                    continue  # combination the format does not support
+                nib.save(h, p)
+                try:
+                    got = h.get_fdata()
+                except Exception:
+                    bad = True
+                    continue
+                ref = nib.load(p).get_fdata()
+                if not np.allclose(got, a, atol=0.51) or not np.allclose(ref, a, atol=0.51):
+                    bad = True
+        return bad
+    finally:
+        shutil.rmtree(d, ignore_errors=True)
+
+
 # ---------------------------------------------------------------- C12
 def S_C12a():
     from nibabel.filename_parser import types_filenames
@@ -470,6 +504,27 @@ def S_C16d():
     lazy = [np.asarray(s) for s in TrkFile.load(b, lazy_load=True).streamlines]
     # lazy and eager must agree to single precision (before the fix they differed by 5e-6 relative)
     return not all(np.allclose(e, l, rtol=5e-7, atol=0) for e, l in zip(eager, lazy))
+
+
+def S_C16c():
+    """items of a lazily loaded TRK must carry the RAS+mm points (they carried the raw voxmm
+    points); saving the lazily loaded tractogram as TCK must write the RAS+mm points"""
+    from nibabel.streamlines import TrkFile, TckFile, Tractogram
+    aff = np.array([[2., 0, 0, 5], [0, 2, 0, -3], [0, 0, 2, 7], [0, 0, 0, 1]])
+    sl = [np.array([[1., 2., 3.], [4., 5., 6.]], dtype='f4'), np.array([[7., 8., 9.]], dtype='f4')]
+    hdr = {'voxel_to_rasmm': aff, 'voxel_sizes': (2., 2., 2.), 'dimensions': (10, 20, 30), 'voxel_order': 'RAS'}
+    b = io.BytesIO()
+    TrkFile(Tractogram(sl, affine_to_rasmm=np.eye(4)), header=hdr).save(b)
+    raw = b.getvalue()
+    eager = [np.asarray(s) for s in TrkFile.load(io.BytesIO(raw)).streamlines]
+    lazy_t = TrkFile.load(io.BytesIO(raw), lazy_load=True).tractogram
+    items = [np.asarray(it.streamline) for it in lazy_t]
+    bad = len(items) != len(eager) or not all(np.allclose(i, e, rtol=1e-5, atol=1e-5) for i, e in zip(items, eager))
+    o = io.BytesIO()
+    TckFile(TrkFile.load(io.BytesIO(raw), lazy_load=True).tractogram).save(o)
+    back = [np.asarray(s) for s in TckFile.load(io.BytesIO(o.getvalue())).streamlines]
+    bad |= len(back) != len(sl) or not all(np.allclose(x, e, rtol=1e-5, atol=1e-5) for x, e in zip(back, sl))
+    return bool(bad)
 
 
 def S_C17d():
